@@ -519,6 +519,101 @@ func rulesC10(p *Prog, r *Report) {
 		}
 	}
 
+	// R10.10 time base of the price path ---------------------------------------------------------
+	// The posted price falls linearly in the time since the CURRENT round started: every elapsed
+	// time in the auction modules is measured from the auction record's own StartTime (which a
+	// restart refreshes), not from the liquidation time or any other timestamp.
+	r.Rule("R10.10", "elapsed auction time is measured from the auction record's StartTime", 3)
+	for _, fn := range p.Funcs {
+		m := moduleOf(fn)
+		if (m != "auction" && m != "auctionsV2") || p.isAuxFn(fn) {
+			continue
+		}
+		n := 0
+		for _, c := range calls(fn) {
+			call, ok := c.(*ssa.Call)
+			if !ok || !strings.HasSuffix(calleeFullName(&call.Call), "time.Time.Sub") || len(call.Call.Args) != 2 {
+				continue
+			}
+			if !p.isBlockTimeCall(call.Call.Args[0]) {
+				continue
+			}
+			n++
+			r.Instance("R10.10")
+			r.FuncsSeen[fname(fn)] = true
+			construct := fmt.Sprintf("%s elapsed time #%d", fname(fn), n)
+			if p.fromRecordFieldsLoose(call.Call.Args[1], map[string]bool{"DutchAuction": true, "Auction": true}, map[string]bool{"StartTime": true}) {
+				r.OK("R10.10", construct, "measured from the auction's StartTime", p.instrPos(call))
+			} else {
+				r.Fail("R10.10", construct, "the time the price has been falling is not measured from the auction's own StartTime: after a restart the posted price leaves the band between the round's start and end price", p.instrPos(call), nil)
+			}
+		}
+	}
+
+	// R10.11 the proceeds are split completely ---------------------------------------------------
+	// At a v1 close the collected debt leaves auction custody in two parts, the burnt principal
+	// and the penalty sent to the collector: the penalty is what was collected less what is
+	// burnt, so nothing of the proceeds stays behind.
+	r.Rule("R10.11", "v1 close: penalty to the collector = collected debt less the burnt principal", 1)
+	for _, fn := range p.Funcs {
+		if moduleOf(fn) != "auction" || p.isAuxFn(fn) || len(fn.Blocks) == 0 {
+			continue
+		}
+		var burnt []string
+		var toColl []*BankEffect
+		for _, c := range calls(fn) {
+			be := bankEffect(c)
+			if be == nil {
+				continue
+			}
+			if be.Op == "Burn" && moduleName(be.From) == auctionMod {
+				burnt = append(burnt, p.amountKeys(be.Coins)...)
+			}
+			if be.Op == "ModToMod" && moduleName(be.From) == auctionMod && moduleName(be.To) == collMod {
+				toColl = append(toColl, be)
+			}
+		}
+		if len(burnt) == 0 || len(toColl) == 0 {
+			continue
+		}
+		for i, be := range toColl {
+			amts, _ := p.coinParts(be.Coins)
+			if len(amts) != 1 {
+				continue
+			}
+			a := amts[0]
+			if av := coinAmountDef(a); av != nil {
+				a = av
+			}
+			r.Instance("R10.11")
+			r.FuncsSeen[fname(fn)] = true
+			construct := fmt.Sprintf("%s penalty #%d", fname(fn), i+1)
+			okAll := true
+			alts := phiAlternatives(a)
+			if len(alts) == 0 {
+				alts = []ssa.Value{a}
+			}
+			for _, alt := range alts {
+				if isZeroValue(alt) {
+					continue
+				}
+				op, recv, sub, isAS := addSubOf(alt)
+				if !isAS || op != "Sub" || !p.fromRecordFieldsLoose(recv, map[string]bool{"DutchAuction": true}, map[string]bool{"InflowTokenTargetAmount": true, "InflowTokenCurrentAmount": true}) {
+					okAll = false
+					continue
+				}
+				if !allAltsIn(altKeys(p, sub), burnt) {
+					okAll = false
+				}
+			}
+			if okAll {
+				r.OK("R10.11", construct, "collected debt less the burnt principal", p.instrPos(be.Call))
+			} else {
+				r.Fail("R10.11", construct, fmt.Sprintf("the penalty sent to the collector is not the collected debt less the burnt principal %v: part of the proceeds stays in auction custody unaccounted (or more leaves than was collected)", uniq(burnt)), p.instrPos(be.Call), nil)
+			}
+		}
+	}
+
 	// R10.2 ------------------------------------------------------------------------
 	r.Rule("R10.2", "V2 collateral amounts come from the stored auction price and the debt price; reserve top-up from the auction's remaining debt", 3)
 	{
